@@ -72,6 +72,16 @@ func matrix(c *hx.Ctx) []imgOpts {
 		with(base("inlinedata-1k", 1024, 256, "inline_data"), func(o *imgOpts) { o.unsupported = "inline_data" }),
 		with(base("eainode-4k", 4096, 256, "ea_inode"), func(o *imgOpts) { o.unsupported = "ea_inode" }),
 		with(base("bigalloc-4k", 4096, 256, "bigalloc"), func(o *imgOpts) { o.extra = []string{"-C", "16384"}; o.sizeKB = 64 * 1024 }),
+		// features the gate of ext4.Read lets pass without the reader implementing them (Props/C20 gate_current_uncovered):
+		// the reads must be right all the same, or fail with an error. meta_bg with one meta group keeps the descriptors
+		// where a plain volume has them; with several, the table the library reads is not a descriptor table (refused
+		// over the checksums). encrypt / casefold set by mke2fs alone change nothing on disk.
+		with(base("metabg-1k", 1024, 256, "meta_bg", "^resize_inode"), func(o *imgOpts) { o.bigDir = 60; o.sizeKB = 12 * 1024 }),
+		with(base("metabg-multi-1k", 1024, 256, "meta_bg", "^resize_inode"), func(o *imgOpts) { o.bigDir = 60; o.sizeKB = 12 * 1024; o.extra = []string{"-g", "256"} }),
+		with(base("casefold-1k", 1024, 256, "casefold"), func(o *imgOpts) { o.bigDir = 60; o.sizeKB = 12 * 1024 }),
+		with(base("encrypt-4k", 4096, 256, "encrypt"), func(o *imgOpts) { o.bigDir = 60; o.sizeKB = 16 * 1024 }),
+		// inodes with i_extra_isize 4, 24, 28 (finding ext4-inode-extra-isize-ignored)
+		with(base("smallextra-1k", 1024, 256), func(o *imgOpts) { o.smallExtra = true; o.bigDir = 60; o.sizeKB = 12 * 1024 }),
 	}
 	if c.Thorough() {
 		r := c.Rng
@@ -102,6 +112,14 @@ func matrix(c *hx.Ctx) []imgOpts {
 					// fine: several groups
 				}
 			}
+			m = append(m, o)
+		}
+		// one image per further feature mke2fs 1.47 can set (COMPAT / RO_COMPAT bits and mmp: nothing the reader looks at)
+		for _, f := range []string{"mmp", "quota", "project", "stable_inodes", "orphan_file", "^orphan_file", "fast_commit", "verity",
+			"uninit_bg", "^dir_nlink", "^extra_isize", "^large_file", "^sparse_super,^resize_inode", "quota,project"} {
+			bs := hx.Pick(r, []int{1024, 2048, 4096})
+			o := base("feat-"+strings.NewReplacer("^", "no-", ",", "+").Replace(f)+fmt.Sprintf("-%dk", bs/1024), bs, 256, strings.Split(f, ",")...)
+			o.bigDir = 80
 			m = append(m, o)
 		}
 		// a directory big enough for a two-level hash tree at 1 KiB blocks
@@ -157,6 +175,9 @@ func Run(c *hx.Ctx) {
 	wg.Wait()
 	synthCores(c, coreRng)
 	deepSynth(c, coreRng.Fork())
+	synthInodeDec(c, coreRng.Fork())
+	synthDirBlocks(c, coreRng.Fork())
+	synthCsum(c, coreRng.Fork())
 	knownReplays(c)
 }
 
@@ -303,6 +324,9 @@ type imgCtx struct {
 	// the image's device and a private generator for the deeper correspondence cases (deep.go)
 	dev *memdev.Dev
 	rng *hx.Rng
+	// extraIsizeHit: the oracle saw finding ext4-inode-extra-isize-ignored on this image; the whole-image cases of
+	// the SPEC reader (which follows the format) are then not emitted for it
+	extraIsizeHit bool
 }
 
 // verdict helpers --------------------------------------------------------------------------
@@ -375,7 +399,14 @@ func runImage(c *hx.Ctx, id string, o imgOpts, r *hx.Rng) {
 	x.geo = fsys.VerifGeometry()
 	x.checkTree()
 	x.inodeLocCases()
-	x.imgCases(x.keepImage(img))
+	x.inodeDecCases()
+	x.gateSweep(data)
+	x.csumCases(data)
+	if x.extraIsizeHit {
+		c.Stat("imgwalk-skipped-known-extra-isize")
+	} else {
+		x.imgCases(x.keepImage(img))
+	}
 	if len(dev.Log) != 0 {
 		x.fail("nowrite", "-", "reading wrote to the device")
 	}
@@ -754,7 +785,21 @@ func (x *imgCtx) checkNode(nid string, n *node) {
 				c.Stat("mode-special-bits")
 			}
 			if len(probs) > 0 {
-				x.fail(sub, "-", label+": "+strings.Join(probs, "; "))
+				tag := "-"
+				if n.smallExtra > 0 && n.smallExtra < 24 && x.o.inodeSize >= 256 {
+					// the words of the extra area that i_extra_isize does not reach were read all the same
+					onlyTimes := true
+					for _, pr := range probs {
+						if !(strings.HasPrefix(pr, "mtime ") || strings.HasPrefix(pr, "atime ") || strings.HasPrefix(pr, "ctime ") || strings.HasPrefix(pr, "crtime ")) {
+							onlyTimes = false
+						}
+					}
+					if onlyTimes {
+						tag = "ext4-inode-extra-isize-ignored"
+						x.extraIsizeHit = true
+					}
+				}
+				x.fail(sub, tag, label+": "+strings.Join(probs, "; "))
 			} else {
 				x.ok(sub)
 			}
